@@ -655,7 +655,12 @@ func googleExecute(x *explore.Exec, sc googleScenario) (*directory, []*localObs,
 		for _, f := range d.fills {
 			f.Prefill = true
 		}
-		d.snapshot = func() map[string][]string { return fc.VerifSnapshot().Cache }
+		d.snapshot = func() map[string][]string {
+			if sn := fc.VerifSnapshot(); sn.OK {
+				return sn.Cache
+			}
+			return nil // (the cache's layout is not the one the accessor knows: the end-of-run oracle is skipped)
+		}
 		d.failable = true
 		for t, qs := range sc.Threads {
 			t, qs := t, qs
@@ -689,7 +694,9 @@ func googleExecute(x *explore.Exec, sc googleScenario) (*directory, []*localObs,
 		}
 	})
 	if sc.RealAdmin && s.Panic == nil && !s.Deadlock {
-		probs = append(probs, finalCacheProblems(d, fc0(d))...)
+		if final := fc0(d); final != nil {
+			probs = append(probs, finalCacheProblems(d, final)...)
+		}
 	}
 	return d, obs, s, probs
 }
@@ -764,6 +771,9 @@ func c17Run(c *fw.Ctx) {
 	edit := func(g string) localQ { return localQ{Groups: []string{g}} }
 	fills := []fillScenario{
 		{Name: "fill/update-update-get", Threads: [][]fillOp{{up, get}, {up}, {get}}, Bound: b},
+		// three refreshes of one group at once (the second is turned away while the first runs; the third arrives
+		// while the first is still running)
+		{Name: "fill/three-updates", Threads: [][]fillOp{{up}, {up}, {up, get}}, Bound: b},
 		{Name: "fill/loop-loop-get", Threads: [][]fillOp{{lp, get}, {lp}}, Ticks: 1, Bound: b},
 		{Name: "fill/loop-update-stop", Threads: [][]fillOp{{lp}, {up, get}, {stop}}, Ticks: 1, Bound: b},
 		{Name: "fill/update-update-get-statement-granularity", Threads: [][]fillOp{{up, get}, {up}, {get}}, Bound: 2, Fine: true},
